@@ -23,11 +23,15 @@
       passed the p2p layer (`p2pAccepts`), nothing is pruned above the stored head.
 
   CONVERGENCE (partial): `convergence_variant_decreases_partial` (every accepted batch strictly
-  decreases the number of missing heights, no insertion increases it) and
+  decreases the number of missing heights, no insertion increases it),
   `convergence_progress_partial` (while a window height up to the head is missing, an idle
-  connected worker schedules a request).  NOT proved — stated as `ConvergenceFullStatement`:
-  that requests are eventually answered by honest peers and that tokio schedules the worker
-  (environment / runtime assumptions, exercised by the correspondence only).
+  connected worker schedules a request), `honest_answer_is_accepted_partial` (the honest headers
+  of any scheduled range pass the p2p layer and the store and decrease the variant) and
+  `converges_when_honest_peers_answer_partial` (the run in which every scheduled request is
+  answered honestly reaches, in at most `missing` answers, a state where every window height up to
+  the head is stored).  NOT proved — `ConvergenceFullStatement`: convergence under arbitrary
+  interleavings with other events; that honest peers do answer and tokio schedules the worker are
+  environment / runtime assumptions (exercised by the correspondence only).
 -/
 import Lumina.Proofs.SyncerLoop
 import Lumina.Gen.C38
@@ -169,5 +173,55 @@ theorem convergence_progress_partial (e : Env) (s : State) (H m : Nat)
   unfold fetchNextBatch
   have : Lumina.Model.SyncerGate.fetchDecision e.slowMin (gateIn e s) = .ok (.request r) := hr
   rw [this]
+
+/-- **An honest answer always helps.**  Whatever request `fetch_next_batch` schedules in a state
+    satisfying the invariant, the honest headers of exactly that range are admissible for the p2p
+    layer, pass every check of the store's `insert`, and strictly decrease the number of missing
+    heights of `[1, K]` (any `K` at or above the start of the batch). -/
+theorem honest_answer_is_accepted_partial (v : Hdr → Hdr → Bool) (c : Nat → Hdr) (hc : HonestChain v c)
+    (e : Env) (s : State) (hi : Inv c s) (hne : s.store.hdrs ≠ []) (r : Lumina.Model.Ranges.Range)
+    (h : Lumina.Model.SyncerGate.fetchDecision e.slowMin (gateIn e s) = .ok (.request r))
+    (K : Nat) (hK : r.1 ≤ K) :
+    p2pAccepts v r (span c r.1 (r.2 + 1 - r.1)) = true ∧
+    AbsStore.insertCheck v s.store (span c r.1 (r.2 + 1 - r.1)) = .ok (some (r.1, r.2)) ∧
+    missing (s.store.insert v (span c r.1 (r.2 + 1 - r.1))).1 1 K < missing s.store 1 K :=
+  honest_answer_progress hc hi hne h K hK
+
+/-- **Convergence when honest peers answer** (the liveness half of C38 under its environment
+    assumption, made explicit as the schedule).  From a steady state — connected, idle, store on
+    the honest chain and not above the head `H`, nothing pruned, slow-sync not armed, batch size
+    ≥ 1 — let the worker decide and let every request it schedules be answered with the honest
+    headers of the requested range.  Then after at most `missing store 1 H` such answers the
+    worker has nothing more to schedule and EVERY height of the sampling window up to the network
+    head is stored; each event of the run is admissible.
+    Partial: other events interleaving with the answers, the assumption that peers do answer,
+    and the runtime are outside the theorem. -/
+theorem converges_when_honest_peers_answer_partial (v : Hdr → Hdr → Bool) (c : Nat → Hdr)
+    (hc : HonestChain v c) (e : Env) (hev : e.verify = v) (hP : ∀ h, e.chain.oldP h = false)
+    (hmono : ∀ h1 h2, h1 ≤ h2 → e.chain.oldS h2 = true → e.chain.oldS h1 = true)
+    (H : Nat) (s0 : State) (hs : Steady c e s0 H) :
+    ∃ evs : List Ev, RunOk v c e (fetchNextBatch e s0).1 evs ∧
+      evs.length ≤ missing s0.store 1 H ∧
+      WindowFull e (run e (fetchNextBatch e s0).1 evs).store H ∧
+      (run e (fetchNextBatch e s0).1 evs).ongoing = none :=
+  honest_schedule_converges hc hev hP hmono H _ s0 hs (Nat.le_refl _)
+
+/-- non-vacuity: the example world is an honest chain … -/
+example : HonestChain exVerify exChain where
+  height := fun _ => rfl
+  valid := fun _ => rfl
+  hashInj := fun _ _ h => h
+  verifies := by
+    intro a b ha hb hh
+    simp only [exVerify, Bool.and_eq_true, beq_iff_eq]
+    exact ⟨⟨hh, by have := ha.2; simpa [exChain] using this⟩, by have := hb.2; simpa [exChain] using this⟩
+
+/-- … and the honest schedule from "head 10 stored, batch size 4, heights ≤ 3 outside the window"
+    ends with 2..10 stored and nothing scheduled (the batch 2..5 straddles the window edge) -/
+example :
+    let evs : List Ev := [.peers 1, .netHead (exChain 10),
+      .batch (some (span exChain 6 4)), .batch (some (span exChain 2 4))]
+    (run exEnv { batchSize := 4 } evs).store.storedRanges = [(2, 10)] ∧
+    (run exEnv { batchSize := 4 } evs).ongoing = none := by decide
 
 end Lumina.Props.C38
